@@ -639,7 +639,9 @@ fn fault_histories(rep: &mut Report, zoo: &[ZooKey]) {
         let h = match run_history(zoo, c.0, c.1) {
             Ok(h) => h,
             Err(e) => {
-                out.machinery.push(e);
+                // the fault-free history ran in this process before the sweep: a history that can no longer even be set up
+                // (its helper objects are signed by remote keys too) has been poisoned by earlier failures
+                out.findings.push(Finding::new("FAULT-POISONED-STATE", "history set-up", format!("the objects the history starts from can no longer be made: {}", e)));
                 return out;
             }
         };
@@ -674,5 +676,31 @@ fn fault_histories(rep: &mut Report, zoo: &[ZooKey]) {
         out.digest = fnv(&dig);
         out
     });
+    rep.add(sec);
+    // a long run of failures on ONE thread (beyond any small counter: 40, thorough 300 histories in which all five sign calls
+    // fail), then the fault-free history on that thread: identical to the baseline
+    let sec = Section::new("fault-histories/long failure runs", "for 4 error values: 40 (thorough 300) histories in a row in which every sign call fails, then the fault-free history on the same thread: same to-be-signed bytes as the fault-free run made first");
+    let kinds = [FailKind::RemoteKeyError, FailKind::RingUnspecified, FailKind::Time, FailKind::PemError];
+    let runs = if std::env::var("VERIF_TIER").map(|t| t == "thorough").unwrap_or(false) { 300 } else { 40 };
+    for (ki, fk) in kinds.iter().enumerate() {
+        let mut out = Outcome::default();
+        for _ in 0..runs {
+            let _ = run_history(zoo, 0b11111, *fk);
+            out.transitions += 5;
+        }
+        match run_history(zoo, 0, *fk) {
+            Err(e) => out.findings.push(Finding::new("FAULT-POISONED-STATE", "history set-up", format!("after {} failing histories: {}", runs, e))),
+            Ok(h) => {
+                for (i, op) in HISTORY.iter().enumerate() {
+                    if h.results[i].as_ref().ok() != baseline.results[i].as_ref().ok() || h.results[i].is_err() {
+                        out.findings.push(Finding::new("FAULT-POISONED-STATE", format!("{:?}", op), format!("after {} histories of failing sign calls on this thread the fault-free operation gives {:?}", runs, h.results[i].as_ref().map(|t| t.len()))));
+                    }
+                }
+            }
+        }
+        out.digest = ki as u64 + 1;
+        sec.record(&|| format!("{} failing histories with {:?}, then a fault-free one", runs, fk), &|| serde_json::json!({"index": ki}), out);
+    }
+    sec.level_done("4 error values");
     rep.add(sec);
 }
